@@ -16,11 +16,15 @@
 (*    re-validate), then model equality against the hash the object        *)
 (*    answers with.  HashMode "code" hashes the current fields; controls:  *)
 (*    "identity", and "memo" = Tag.__hash__ cached in the instance __dict__*)
-(*    (history/MC_Encoding_hash_memo.cfg: TLC finds the stale hash).       *)
+(*    (history/MC_Encoding_hash_memo.cfg: TLC finds the stale hash), and   *)
+(*    "fields_set" = Term.__hash__ over the explicitly passed fields       *)
+(*    (history/MC_Encoding_hash_fields_set.cfg: refuted on pairs and, via  *)
+(*    the dictionary of the encoder, on ImplEncoder).                      *)
 (***************************************************************************)
 EXTENDS Encoding, TLC, Json
 CONSTANTS MaxVocab, MaxTags, NTags, SmallTags, KeyMode, HashMode,
           NearPairs,   \* derived objects meet: TRUE = partners differing in <= 1 field, FALSE = model-equal partners only
+          ProvTags,    \* tag lists up to this length meet vocabularies of <= 2 tags written differently (vprov # qprov ...)
           WideProv     \* partner provenance: TRUE = fresh / deep_copy / revalidate / same as the first, FALSE = fresh / same
 VARIABLES c, pc, i, map, cls, multi, pred
 
@@ -35,8 +39,10 @@ Pat1 == <<1, 2, 3, 4>>
 Pat2 == <<4, 0, 2, 1>>
 Scs(ts) == <<SubSeq(Pat1, 1, Len(ts)), SubSeq(Pat2, 1, Len(ts))>>
 \* quick tier: the largest vocabularies only meet lists of at most SmallTags members
-EncCase(v, ts) == [kind |-> "enc", vocab |-> v, tags |-> ts, scs |-> Scs(ts), ftags |-> Filtered(v, ts),
-                   fscs |-> [s \in DOMAIN Scs(ts) |-> FilteredSc(v, ts, Scs(ts)[s])]]
+EncCaseP(v, ts, vp, qp) == [kind |-> "enc", vocab |-> v, tags |-> ts, scs |-> Scs(ts), ftags |-> Filtered(v, ts),
+                            fscs |-> [s \in DOMAIN Scs(ts) |-> FilteredSc(v, ts, Scs(ts)[s])], vprov |-> vp, qprov |-> qp]
+EncCase(v, ts) == EncCaseP(v, ts, "fresh", "fresh")
+Written == {"fresh", "explicit_defaults"}
 
 PairCase(k, x, px, y, py) == [kind |-> "pair", cls |-> k, x |-> x, y |-> y, px |-> px, py |-> py]
 PartnerProvs(px) == IF WideProv THEN {Fresh, Prov("deep_copy", 0), Prov("revalidate", 0), px} ELSE {Fresh, px}
@@ -45,9 +51,14 @@ Key(u) == CASE KeyMode = "term_value"  -> <<UTag[u][1], UTag[u][2]>>
             [] KeyMode = "name_value"  -> <<TermName[UTag[u][1]], UTag[u][2]>>
             [] KeyMode = "label_value" -> <<TermLabel[UTag[u][1]], UTag[u][2]>>
             [] KeyMode = "value"       -> <<UTag[u][2]>>
-Lookup(u) == IF \E e \in map : e[1] = Key(u) THEN <<(CHOOSE e \in map : e[1] = Key(u))[2]>> ELSE <<>>
+\* a python dict finds an equal key only under an equal hash; control HashMode = "fields_set": the hash of a term depends
+\* on which fields were passed explicitly, so equal tags written differently miss each other
+HashMiss == HashMode = "fields_set" /\ c.vprov # c.qprov
+Lookup(u) == IF ~HashMiss /\ \E e \in map : e[1] = Key(u) THEN <<(CHOOSE e \in map : e[1] = Key(u))[2]>> ELSE <<>>
 
 Init == /\ \/ \E v \in Vocabs, ts \in TagLists : (Len(v) < MaxVocab \/ Len(ts) <= SmallTags) /\ c = EncCase(v, ts)
+           \/ \E v \in Vocabs, ts \in TagLists : \E vp \in Written, qp \in Written :
+                 Len(v) <= 2 /\ Len(ts) <= ProvTags /\ <<vp, qp>> # <<"fresh", "fresh">> /\ c = EncCaseP(v, ts, vp, qp)
            \/ \E k \in 1..Len(ClassNames) : \E x \in Objects(k), y \in Objects(k) : c = PairCase(k, x, Fresh, y, Fresh)
            \/ \E k \in 1..Len(ClassNames) : \E x \in Objects(k), y \in Objects(k) :
                  \E px \in Provs(k) \ {Fresh} : \E py \in PartnerProvs(px) :
@@ -96,6 +107,9 @@ ImplPred     == (IsEnc /\ pc = "done") => \A s \in DOMAIN c.scs : PredOK(c.vocab
 Memo(who) == IF \E e \in map : e[1] = who THEN <<(CHOOSE e \in map : e[1] = who)[2]>> ELSE <<>>
 FinalHash(who, x) == IF HashMode = "memo"
                      THEN (IF c.cls = 2 /\ Memo(who) # <<>> THEN Memo(who)[1] ELSE HashKey("code", c.cls, x, who))
+                     ELSE IF HashMode = "fields_set"      \* Term / Tag / Feature: the hash also sees how the term was written
+                     THEN HashKey("code", c.cls, x, who) \o
+                          (IF c.cls <= 3 THEN <<(IF who = 1 THEN c.px ELSE c.py) = Explicit>> ELSE <<>>)
                      ELSE HashKey(HashMode, c.cls, x, who)
 ImplHashSound == (~IsEnc /\ pc = "done") => (ModelEq(c.cls, c.x, c.y) => FinalHash(1, c.x) = FinalHash(2, c.y))
 (* laws of Req, once per case *)
